@@ -17,7 +17,7 @@ RULE = (
     "orders must equal the comparison of the two base amounts (UnitModel), never a>b and b>a, always a<=b or b<=a. "
     "Generated cross-type pairs (simple and derived) must raise TypeError for the four order operators. "
     "(b) equality: Hypothesis-generated pools of 4..9 objects out of Quantity (simple/derived/empty/unknown), "
-    "Scalar, Array and FixedArray (list/tuple/ndarray, lengths 0..4), FractionScalar, FractionValue, Fraction, "
+    "Scalar, Array and FixedArray (list/tuple/ndarray of dtype float64, float32, int32, object; lengths 0..4), FractionScalar, FractionValue, Fraction, "
     "Curve, UnitSystem and unrelated objects (None, str, int, float, tuple, list, dict, object()), drawn from small "
     "alphabets so that equal twins occur; for every ordered pair ==/!= never raise, a==a, (a==b)==(b==a), "
     "(a!=b)==not(a==b), a==b => hash(a)==hash(b) when both hash. Non-trivial = (a) u!=v; (b) pair of different "
@@ -300,7 +300,7 @@ def spec_strategy():
     qunknown = st.sampled_from(["", "foo", "m"]).map(lambda c: ("quantity", "unknown", c))
     qctor = unit_cat.map(lambda uc: ("quantity", "ctor", uc[0], uc[1]))
     quantity = st.one_of(qsimple, qsimple, qctor, qderived, qempty, qunknown)
-    kinds = st.sampled_from(["list", "tuple", "ndarray"])
+    kinds = st.sampled_from(["list", "tuple", "ndarray", "ndarray", "ndarray_object", "ndarray_f32", "ndarray_i32"])
     values = st.lists(val, min_size=0, max_size=4)
     values2 = st.lists(val, min_size=2, max_size=4)
     array = st.tuples(quantity, kinds, values).map(lambda t: ("array", t[0], t[1], t[2]))
